@@ -369,6 +369,9 @@ type guardQuery struct {
 	want    bool
 	memo    map[string]bool
 	visited map[string]bool
+	// function-valued parameters of the function under evaluation, as bound by the call site the
+	// evaluation came from (a predicate handed to a shared "parse and check" helper)
+	binds map[*ssa.Parameter]*ssa.Function
 }
 
 func newGuardQuery(prog *ssa.Program, pkg *ssa.Package, pred string, want bool) *guardQuery {
@@ -414,15 +417,92 @@ func subjectRoots(fn *ssa.Function, subj guardSubject, r *ssa.Return, phis map[*
 				if ex := extractOf(call, 0); ex != nil {
 					roots[ex] = "S"
 				}
+				continue
+			}
+			// a method value of a context (or an operation received as a function value) called here
+			if _, what := mutatedArg(&call.Call); strings.HasPrefix(what, "apd.Context.") {
+				if ex := extractOf(call, 0); ex != nil {
+					roots[ex] = "S"
+				}
+				continue
+			}
+			// a hand-written helper that performs the operation and hands its condition flags back
+			if sc := call.Call.StaticCallee(); sc != nil && sc.Pkg == fn.Pkg {
+				if i := condPassThrough(sc, 0); i >= 0 {
+					if ex := extractOf(call, i); ex != nil {
+						roots[ex] = "S"
+					}
+				}
 			}
 		}
 	}
 	return roots
 }
 
+// condPassThrough: h returns, at result index i, exactly the apd.Condition of a context operation it
+// performs (on every return that is not provably an error return); -1 otherwise.
+func condPassThrough(h *ssa.Function, depth int) int {
+	if depth > 2 || len(h.Blocks) == 0 {
+		return -1
+	}
+	res := h.Signature.Results()
+	idx := -1
+	for i := 0; i < res.Len(); i++ {
+		if typeIs(res.At(i).Type(), "", "Condition") {
+			idx = i
+		}
+	}
+	if idx < 0 {
+		return -1
+	}
+	isOpCond := func(v ssa.Value) bool {
+		ex, ok := v.(*ssa.Extract)
+		if !ok || ex.Index != 0 {
+			if ok {
+				if c2, isC := ex.Tuple.(*ssa.Call); isC {
+					if sc := c2.Call.StaticCallee(); sc != nil && sc.Pkg == h.Pkg && condPassThrough(sc, depth+1) == ex.Index {
+						return true
+					}
+				}
+			}
+			return false
+		}
+		call, ok := ex.Tuple.(*ssa.Call)
+		if !ok {
+			return false
+		}
+		pkg, name := calleePkgName(&call.Call)
+		if strings.Contains(pkg, "cockroachdb/apd") && strings.HasPrefix(name, "Context.") {
+			return true
+		}
+		_, what := mutatedArg(&call.Call)
+		return strings.HasPrefix(what, "apd.Context.")
+	}
+	n := 0
+	for _, b := range h.Blocks {
+		ret, isR := b.Instrs[len(b.Instrs)-1].(*ssa.Return)
+		if !isR || idx >= len(ret.Results) {
+			continue
+		}
+		n++
+		if !isOpCond(ret.Results[idx]) {
+			return -1
+		}
+	}
+	if n == 0 {
+		return -1
+	}
+	return idx
+}
+
 // guarded: every success return of fn lies behind pred(subject) == want.
 func (q *guardQuery) guarded(fn *ssa.Function, subj guardSubject, depth int) (bool, string) {
 	key := fmt.Sprintf("%s|%s|%d", fn.String(), subj.kind, subj.param)
+	for _, prm := range fn.Params {
+		if f := q.binds[prm]; f != nil {
+			key += "|" + prm.Name() + "=" + f.String()
+		}
+	}
 	if v, ok := q.memo[key]; ok {
 		return v, ""
 	}
@@ -486,6 +566,7 @@ func (q *guardQuery) guardedUncached(fn *ssa.Function, subj guardSubject, depth 
 			continue
 		}
 		n := &pgNamer{fn: fn, roots: roots, ids: map[ssa.Value]string{}, phis: pf.phis}
+		q.expandBoundPredicates(fn, bp, pf, n)
 		callTerm := q.pred + "(S)"
 		val := evalPred(callTerm, q.dnf, pf.lits)
 		if (val == 1 && q.want) || (val == -1 && !q.want) {
@@ -528,6 +609,16 @@ func (q *guardQuery) guardedUncached(fn *ssa.Function, subj guardSubject, depth 
 				if !succeeded {
 					continue
 				}
+				// function values handed to the helper (predicates, checks) are bound for its evaluation
+				saved := q.binds
+				q.binds = map[*ssa.Parameter]*ssa.Function{}
+				for j, a := range call.Call.Args {
+					if j < len(h.Params) {
+						if f := funcValueOf(a, saved); f != nil {
+							q.binds[h.Params[j]] = f
+						}
+					}
+				}
 				// (a) the helper receives the subject
 				for j, a := range call.Call.Args {
 					if n.term(a, 0) == "S" || n.term(a, 0) == "&S" {
@@ -555,6 +646,7 @@ func (q *guardQuery) guardedUncached(fn *ssa.Function, subj guardSubject, depth 
 						okByHelper = true
 					}
 				}
+				q.binds = saved
 			}
 		}
 		if okByHelper {
@@ -601,3 +693,54 @@ func wrapArg(v ssa.Value) (ssa.Value, bool) {
 }
 
 var _ = types.Typ
+
+
+// expandBoundPredicates: a branch on `check(S)` where check is a function-valued parameter bound by the
+// caller to a same-package predicate (or closure) is a branch on what that predicate tests: its atoms,
+// with the predicate's own parameter standing for the subject, are added to the path literals.
+func (q *guardQuery) expandBoundPredicates(fn *ssa.Function, bp []*ssa.BasicBlock, pf *pgPath, n *pgNamer) {
+	if len(q.binds) == 0 {
+		return
+	}
+	for i, b := range bp {
+		ifi, ok := b.Instrs[len(b.Instrs)-1].(*ssa.If)
+		if !ok || i+1 >= len(bp) {
+			continue
+		}
+		cond, neg := ifi.Cond, false
+		for k := 0; k < 4; k++ {
+			if u, isU := cond.(*ssa.UnOp); isU && u.Op == token.NOT {
+				cond, neg = u.X, !neg
+				continue
+			}
+			break
+		}
+		call, isCall := cond.(*ssa.Call)
+		if !isCall || call.Call.IsInvoke() || call.Call.StaticCallee() != nil || len(call.Call.Args) != 1 {
+			continue
+		}
+		prm, isP := call.Call.Value.(*ssa.Parameter)
+		if !isP || q.binds[prm] == nil {
+			continue
+		}
+		if t := n.term(call.Call.Args[0], 0); t != "S" && t != "&S" {
+			continue
+		}
+		val := (bp[i+1] == b.Succs[0]) != neg // value of check(S) on this path
+		dnf := predDNF(q.binds[prm])
+		if val && len(dnf) == 1 {
+			for t, v := range dnf[0] {
+				if _, seen := pf.lits[t]; !seen {
+					pf.lits[t] = v
+				}
+			}
+		}
+		if !val && len(dnf) == 1 && len(dnf[0]) == 1 {
+			for t, v := range dnf[0] {
+				if _, seen := pf.lits[t]; !seen {
+					pf.lits[t] = !v
+				}
+			}
+		}
+	}
+}
